@@ -101,7 +101,8 @@ CHECKS.update({
         "contents, dot files are read back in three spellings; structurally defective member sets must raise DebError;", "DESIGN.md §5 C07",
         "tarfile and the compression codecs are external libraries"),
  "C08": dict(bounded_only("", "DESIGN.md §5 C08"),
-        text="The anti-drift lemmas between the value validator and the parser's patterns are PROVED for all lines of the stated character "
+        text="validate_input (exactly which values it accepts, ValueError otherwise) and Deb822.__setitem__ (a rejected value leaves the "
+             "paragraph unchanged) are verified from their AST. The anti-drift lemmas between the value validator and the parser's patterns are PROVED for all lines of the stated character "
              "domain by SMT on the real pattern objects (an accepted continuation line never matches _single/_multi/_gpgre/the empty-line "
              "pattern, a non-blank one matches _multidata and never the whitespace paragraph separator). The composition validator -> dump "
              "-> parser is decided by a bounded stand-in: every value of length <= 5/6 over {a, ':', '#', space, TAB, CR, LF}.",
@@ -115,7 +116,13 @@ CHECKS.update({
         "parsed back (no warning allowed) and re-formatted;", "DESIGN.md §5 C13"),
  "C15": bounded_only("well-formed changelogs mutated by inserting/deleting/duplicating lines from a pool of 26 line kinds, with allow_empty_author on "
         "and off: lenient never raises, strict raises iff lenient warns, str() is a normal form; plus editing histories;", "DESIGN.md §5 C15"),
- "C17": bounded_only("the multiline codec is checked on all line lists of length <= 3/4 over 14 line kinds, and seeded copyright documents are "
+ "C17": dict(bounded_only("", "DESIGN.md §5 C17"),
+        text="format_multiline_lines is verified from its AST against the per-line encoding (loop invariant), and the per-line round-trip "
+             "lemma (decode(encode(line)) == line unless the line is whitespace-only or a lone '.') is proved for all lines; the decoder "
+             "loop, the join/splitlines law and whole copyright documents (dump -> strict parse -> dump) are decided by a bounded stand-in: "
+             "all line lists of length <= 3/4 over 14 line kinds and seeded documents.",
+        technique="contract-based deductive verification of the encoder + lemma (SMT) and a bounded stand-in for decoder and documents"),
+ "C17-old": bounded_only("the multiline codec is checked on all line lists of length <= 3/4 over 14 line kinds, and seeded copyright documents are "
         "dumped, strictly re-parsed and re-dumped;", "DESIGN.md §5 C17"),
  "C19": dict(bounded_only("", "DESIGN.md §5 C19"),
         text="replace_file is verified from its AST against a ghost file system in which open, every write, close and rename may fail: "
